@@ -100,10 +100,10 @@ int disasm_86000(
           return 3;
         case OP_ADDRESS_BIT_RELATIVE8:
           bit = opcode & 0x7;
-          value = ((opcode >> 4) & 1) | memory->read8(address + 1);
+          value = (((opcode >> 4) & 1) << 8) | memory->read8(address + 1);
           offset = memory->read8(address + 2);
 
-          snprintf(instruction, length, "%s #0x%02x, %d, 0x%04x (offset=%d)",
+          snprintf(instruction, length, "%s 0x%02x, %d, 0x%04x (offset=%d)",
             table_86000[n].name,
             value,
             bit,
